@@ -1,9 +1,182 @@
 import WacModel.Spec.Graph
+import WacProofs.Lemmas.GraphErrors
+import WacProofs.Lemmas.Graph
+/-
+  C06 — the graph API stays consistent over every operation history.
+
+  Model: WacModel/Graph.lean (function for function with graph.rs); specification:
+  WacModel/Spec/Graph.lean (`Inv`, `LiveIds`).  All theorems quantify over every static
+  context `ctx` (packages, kinds, types, subtype verdicts, name validity) and every state.
+-/
 namespace Wac.Props.C06
 open Wac Wac.Graph
+
+/-! ### a small concrete universe for the non-vacuity examples and the counterexamples -/
+
+/-- kind 0 = a function, kind 1 = the instance type of package `p` (exports `a : kind 0`) -/
+def ctxW : Ctx where
+  kindExports k := if k = 1 then some [(['a'], 0)] else none
+  sub a b := a == b
+  tyVisits ty := if ty = 0 then [0] else if ty = 1 then [1, 0] else [2, 1, 0]
+  tyIsResource _ := false
+  tyKind ty := 10 + ty
+  validExtern s := !s.isEmpty
+  validExport s := !s.isEmpty
+
+/-- package `p`: imports `a : kind 0`, instances have kind 1 -/
+def pkgW : PkgDef := ⟨['p'], none, [(['a'], 0)], 1⟩
 
 /-- the empty graph is consistent -/
 theorem inv_init (ctx : Ctx) : Inv ctx {} := by
   constructor <;> simp [Graph.node?]
+
+/-! ### each error is the documented one for the state (one iff per fallible operation) -/
+
+theorem errors_documented (ctx : Ctx) (g : Graph) (e : Err) :
+    (∀ d, (step ctx g (.register d)).2 = .err e ↔
+        Err.packageAlreadyRegistered d.key = e ∧ (alGet g.pkgMap d.key).isSome = true) ∧
+    (∀ name k, (step ctx g (.importItem name k)).2 = .err e ↔
+        (∃ n, alGet g.imports name = some n ∧ Err.importAlreadyExists name n = e) ∨
+        (alGet g.imports name = none ∧ ctx.validExtern name = false ∧ Err.invalidImportName name = e)) ∧
+    (∀ n name, (step ctx g (.exportNode n name)).2 = .err e ↔
+        (∃ m, alGet g.exports name = some m ∧ Err.exportAlreadyExists name m = e) ∨
+        (alGet g.exports name = none ∧ ctx.validExport name = false ∧ Err.invalidExportName name = e)) ∧
+    (∀ n, (step ctx g (.unexport n)).2 = .err e ↔
+        ∃ nd, g.node? n = some nd ∧ nd.isDef = true ∧ Err.mustExportDefinition = e) ∧
+    (∀ inst ename, (step ctx g (.alias inst ename)).2 = .err e ↔
+        ∃ nd, g.node? inst = some nd ∧
+          ((ctx.kindExports nd.item = none ∧ Err.nodeIsNotAnInstance inst = e) ∨
+           (∃ exps, ctx.kindExports nd.item = some exps ∧ alFull exps ename = none ∧
+              Err.instanceMissingExport inst ename = e))) ∧
+    (∀ id, (step ctx g (.instantiate id)).2 ≠ .err e) ∧
+    (∀ n s, (step ctx g (.setName n s)).2 ≠ .err e) ∧
+    (∀ n, (step ctx g (.removeNode n)).2 ≠ .err e) :=
+  ⟨fun d => register_err_iff g d e, fun name k => import_err_iff ctx g name k e,
+   fun n name => export_err_iff ctx g n name e, fun n => unexport_err_iff .fixed g n e,
+   fun inst ename => alias_err_iff ctx g inst ename e,
+   (infallible_ops .fixed g e).1, (infallible_ops .fixed g e).2.1, (infallible_ops .fixed g e).2.2⟩
+
+/-- `define_type`: the four documented errors, in the order they are decided -/
+theorem errors_documented_define (ctx : Ctx) (g : Graph) (name : Str) (ty : Ty) (e : Err) :
+    (step ctx g (.defineType name ty)).2 = .err e ↔
+      ((alGet g.defined ty).isSome = true ∧ Err.typeAlreadyDefined = e) ∨
+      ((alGet g.defined ty).isSome = false ∧ ctx.tyIsResource ty = true ∧ Err.cannotDefineResource = e) ∨
+      ((alGet g.defined ty).isSome = false ∧ ctx.tyIsResource ty = false ∧
+        (alGet g.exports name).isSome = true ∧ Err.exportConflict name = e) ∨
+      ((alGet g.defined ty).isSome = false ∧ ctx.tyIsResource ty = false ∧
+        (alGet g.exports name).isSome = false ∧ ctx.validExtern name = false ∧ Err.invalidExternName name = e) :=
+  defineType_err_iff ctx g name ty e
+
+/-- `set_instantiation_argument` / `unset_instantiation_argument` -/
+theorem errors_documented_arguments (ctx : Ctx) (g : Graph) (inst : Nat) (name : Str) (arg : Nat) (e : Err) :
+    ((step ctx g (.setArg inst name arg)).2 = .err e ↔
+      ∃ nd, g.node? inst = some nd ∧
+        ((nd.isInst = false ∧ Err.nodeIsNotAnInstantiation inst = e) ∨
+         (nd.isInst = true ∧ ∃ pid d, nd.pkg = some pid ∧ g.pkgAt pid = .ok d ∧
+           ((alFull d.imports name = none ∧ Err.invalidArgumentName inst name d.name = e) ∨
+            (∃ i k, alFull d.imports name = some (i, k) ∧
+              ((scanArgs (g.inEdges inst) i arg = some (.ok false) ∧ Err.argumentAlreadyPassed inst name = e) ∨
+               (scanArgs (g.inEdges inst) i arg = none ∧ ∃ a, g.node? arg = some a ∧
+                  ctx.sub a.item k = false ∧ Err.argumentTypeMismatch name = e))))))) ∧
+    ((step ctx g (.unsetArg inst name arg)).2 = .err e ↔
+      ∃ nd, g.node? inst = some nd ∧
+        ((nd.isInst = false ∧ Err.nodeIsNotAnInstantiation inst = e) ∨
+         (nd.isInst = true ∧ ∃ pid d, nd.pkg = some pid ∧ g.pkgAt pid = .ok d ∧
+           alFull d.imports name = none ∧ Err.invalidArgumentName inst name d.name = e))) :=
+  ⟨setArg_err_iff ctx g inst name arg e, unsetArg_err_iff g inst name arg e⟩
+
+-- non-vacuity: both argument errors occur in the small universe
+example : (run ctxW {} [.register pkgW, .instantiate ⟨0, 0⟩, .setArg 0 ['b'] 0]).2.getLast? =
+    some (.err (.invalidArgumentName 0 ['b'] ['p'])) := by decide
+example : (run ctxW {} [.register pkgW, .instantiate ⟨0, 0⟩, .setArg 0 ['a'] 0]).2.getLast? =
+    some (.err (.argumentTypeMismatch ['a'])) := by decide
+
+/-! ### the three defects of the pinned tree (DESIGN §10 rows 1–3), as theorems about the
+    model of the pinned code, and their absence in the model of the repaired code -/
+
+/-- row 1: set an argument from an alias, remove the alias, alias again, set again -/
+def histStaleSat : List Op :=
+  [.register pkgW, .instantiate ⟨0, 0⟩, .instantiate ⟨0, 0⟩, .alias 0 ['a'], .setArg 1 ['a'] 2,
+   .removeNode 2, .alias 0 ['a'], .setArg 1 ['a'] 2]
+
+theorem stale_satisfied_set_counterexample :
+    ¬ Inv ctxW (runWith .pinned ctxW {} (histStaleSat.take 6)).1 ∧
+    (runWith .pinned ctxW {} histStaleSat).2.getLast? = some (.panic .satInsert) ∧
+    LiveIds (runWith .pinned ctxW {} (histStaleSat.take 7)).1 (.setArg 1 ['a'] 2) = true := by
+  decide
+
+theorem stale_satisfied_set_repaired :
+    Inv ctxW (run ctxW {} (histStaleSat.take 6)).1 ∧
+    (run ctxW {} histStaleSat).2.getLast? = some (.ok .unit) := by
+  decide
+
+/-- row 2: export a node under two names, unexport it -/
+def histStaleExport : List Op :=
+  [.register pkgW, .instantiate ⟨0, 0⟩, .exportNode 0 ['x'], .exportNode 0 ['y'], .unexport 0, .removeNode 0]
+
+theorem stale_export_name_counterexample :
+    ¬ Inv ctxW (runWith .pinned ctxW {} (histStaleExport.take 5)).1 ∧
+    ¬ Inv ctxW (runWith .pinned ctxW {} histStaleExport).1 ∧
+    getExport (runWith .pinned ctxW {} histStaleExport).1 ['x'] = some 0 ∧
+    (runWith .pinned ctxW {} histStaleExport).1.live 0 = false := by
+  decide
+
+theorem stale_export_name_repaired :
+    Inv ctxW (run ctxW {} histStaleExport).1 ∧ getExport (run ctxW {} histStaleExport).1 ['x'] = none := by
+  decide
+
+/-- row 3: a base type defined after two dependants that depend on each other, then removed -/
+def histDoubleRemove : List Op :=
+  [.defineType ['c'] 2, .defineType ['b'] 1, .defineType ['a'] 0, .removeNode 2]
+
+theorem double_removal_counterexample :
+    (runWith .pinned ctxW {} histDoubleRemove).2.getLast? = some (.panic .invalidNodeId) ∧
+    LiveIds (runWith .pinned ctxW {} (histDoubleRemove.take 3)).1 (.removeNode 2) = true := by
+  decide
+
+theorem double_removal_repaired :
+    (run ctxW {} histDoubleRemove).2.getLast? = some (.ok .unit) ∧
+    (run ctxW {} histDoubleRemove).1.nodeIds = [] ∧ Inv ctxW (run ctxW {} histDoubleRemove).1 := by
+  decide
+
+/-! ### stale package identifiers -/
+
+/-- an unregistered package id is rejected by every call that takes one (generation check),
+    also after the slot has been reused by a new registration -/
+theorem stale_package_id_rejected (lg : Legacy) (g g' : Graph) (id : PkgId)
+    (h : unregisterPackage lg g id = (g', .ok .unit)) :
+    (instantiate g' id).2 = .panic .invalidPackageId ∧
+    (unregisterPackage lg g' id).2 = .panic .invalidPackageId ∧
+    ∀ d g'' id', registerPackage g' d = (g'', .ok (.pkg id')) →
+      id' ≠ id ∧ (instantiate g'' id).2 = .panic .invalidPackageId := by
+  obtain ⟨slot, d0, hslot, hgen, _, hpkgs, hfree, _⟩ := unregister_ok_shape h
+  have hlt : id.index < g.pkgs.length := by
+    rcases Nat.lt_or_ge id.index g.pkgs.length with h | h
+    · exact h
+    · rw [List.getElem?_eq_none h] at hslot; cases hslot
+  have hget : g'.pkgs[id.index]? = some ⟨none, slot.gen + 1⟩ := by
+    rw [hpkgs, List.getElem?_set_self hlt]
+  have hne : slot.gen + 1 ≠ id.gen := by omega
+  refine ⟨?_, ?_, ?_⟩
+  · simp [instantiate, Graph.pkgOf, hget, hne]
+  · simp [unregisterPackage, hget, hne]
+  · intro d g'' id' hreg
+    unfold registerPackage at hreg
+    split at hreg
+    · simp at hreg
+    · rw [hfree] at hreg
+      simp only [hget] at hreg
+      simp only [Option.isSome_none, Bool.false_eq_true, ↓reduceIte, Prod.mk.injEq, Outcome.ok.injEq,
+        Val.pkg.injEq] at hreg
+      obtain ⟨hg, hid⟩ := hreg
+      subst hid
+      refine ⟨?_, ?_⟩
+      · intro h; have := congrArg PkgId.gen h; simp at this; omega
+      · subst hg
+        simp [instantiate, Graph.pkgOf, List.getElem?_set_self (hpkgs ▸ by simpa using hlt : id.index < g'.pkgs.length), hne]
+
+-- non-vacuity: register, unregister, register again: the first id is dead, the second differs
+example : (run ctxW {} [.register pkgW, .unregister ⟨0, 0⟩, .register pkgW, .instantiate ⟨0, 0⟩]).2 =
+    [.ok (.pkg ⟨0, 0⟩), .ok .unit, .ok (.pkg ⟨0, 1⟩), .panic .invalidPackageId] := by decide
 
 end Wac.Props.C06
